@@ -37,7 +37,8 @@ GC, DIS, NCM, LIM = FLAG["ENABLE_GC"], FLAG["DISABLE_OP"], FLAG["NEW_COST_MODEL"
 
 
 def mentions_modpow(p_tt):
-    return "a3c;" in p_tt
+    # also the literals from which gen_prog.composed_programs computes the operator 60 at run time
+    return "a3c;" in p_tt or "a3cffffffff;" in p_tt or "a7f7f7f7f3c;" in p_tt
 
 
 def reference_flags(f):
